@@ -151,6 +151,11 @@ def setter_elem_ty(f: Field):
     return elem_ty(f)
 
 
+def sname(f: Field):
+    """name used in with_<name> / set_<name>: a raw identifier loses its r# prefix"""
+    return f.name[2:] if f.name.startswith("r#") else f.name
+
+
 def attr_text(f: Field, idx_for_spelling=0):
     form = f.form
     if len(f.ranges) == 1 and form == 'list1':
@@ -327,7 +332,7 @@ def adapter(s: Struct):
         if not f.writable:
             continue
         tv = to_val(f, 'v')
-        call = f"o.with_{f.name}(idx, {tv})" if f.arr else f"o.with_{f.name}({tv})"
+        call = f"o.with_{sname(f)}(idx, {tv})" if f.arr else f"o.with_{sname(f)}({tv})"
         out.append(f"    {i} => {call},")
     out.append("    _ => panic!(\"harness: no with_\") }; if regmc::machine::to_bits(&o) != ob { panic!(\"harness: receiver changed by with_\") } regmc::machine::to_bits(&r) }")
     # set
@@ -340,7 +345,7 @@ def adapter(s: Struct):
             if not f.writable:
                 continue
             tv = to_val(f, 'v')
-            call = f"o.set_{f.name}(idx, {tv})" if f.arr else f"o.set_{f.name}({tv})"
+            call = f"o.set_{sname(f)}(idx, {tv})" if f.arr else f"o.set_{sname(f)}({tv})"
             out.append(f"    {i} => {call},")
         if not probe:
             out.append("    _ => panic!(\"harness: no set_\") }; regmc::machine::to_bits(&o) }")
@@ -360,10 +365,10 @@ def adapter(s: Struct):
                 continue
             if f.arr:
                 elems = ", ".join(to_val(f, f"a[{k + j}]") for j in range(f.arr[0]))
-                chain.append(f".with_{f.name}([{elems}])")
+                chain.append(f".with_{sname(f)}([{elems}])")
                 k += f.arr[0]
             else:
-                chain.append(f".with_{f.name}({to_val(f, f'a[{k}]')})")
+                chain.append(f".with_{sname(f)}({to_val(f, f'a[{k}]')})")
                 k += 1
         out.append(f"  fn build(&self, a: &[u128]) -> Option<u128> {{ let _ = a; Some(regmc::machine::to_bits(&{S}::builder(){''.join(chain)}.build())) }}")
     if s.ctab:
@@ -459,7 +464,7 @@ def const_tables_code(s: Struct, full_n=8, full_w=4):
                     o.append(f"const CT_{S}_V_{fi}: [u128; {V}] = {lit(vals)};")
                 tv = to_val(f, f"CT_{S}_V_{fi}[j]")
                 o.append(f"static CT_{S}_WITH_{fi}_{idx}: [u128; {K * V}] = {{ let mut t = [0u128; {K * V}]; let mut i = 0; while i < {K} {{ let o = {NEW}; let mut j = 0; "
-                         f"while j < {V} {{ t[i * {V} + j] = {base_val(n, f'o.with_{f.name}({ia2}{tv}).raw_value()')}; j += 1; }} i += 1; }} t }};")
+                         f"while j < {V} {{ t[i * {V} + j] = {base_val(n, f'o.with_{sname(f)}({ia2}{tv}).raw_value()')}; j += 1; }} i += 1; }} t }};")
                 rows.append(f'regmc::ConstTable {{ kind: "with", f: {fi}, idx: {idx}, states: &CT_{S}_ST, values: &CT_{S}_V_{fi}, table: &CT_{S}_WITH_{fi}_{idx}, args: &[] }}')
     if s.has_builder:
         slots = []
@@ -483,10 +488,10 @@ def const_tables_code(s: Struct, full_n=8, full_w=4):
                 continue
             if f.arr:
                 elems = ", ".join(to_val(f, f"CT_{S}_ARGS[i][{k + j}]") for j in range(f.arr[0]))
-                chain.append(f".with_{f.name}([{elems}])")
+                chain.append(f".with_{sname(f)}([{elems}])")
                 k += f.arr[0]
             else:
-                chain.append(f".with_{f.name}({to_val(f, f'CT_{S}_ARGS[i][{k}]')})")
+                chain.append(f".with_{sname(f)}({to_val(f, f'CT_{S}_ARGS[i][{k}]')})")
                 k += 1
         built = base_val(n, f"{S}::builder(){''.join(chain)}.build().raw_value()")
         o.append(f"static CT_{S}_BUILD: [u128; {Rn}] = {{ let mut t = [0u128; {Rn}]; let mut i = 0; while i < {Rn} {{ t[i] = {built}; i += 1; }} t }};")
